@@ -34,8 +34,11 @@ import (
 func (h *harness) replayKnown() {
 	// --- claim amounts (finding C20-6, repaired by edafc05): a negative or absent amount must be refused by ValidateBasic;
 	//     should it ever be accepted again, the real attestation handler is run on it to show the panic ---
-	fx := h.c.SetupFX([]string{"eth"})
-	contractAddr := fx.Aliases[0].Contract
+	if h.w == nil || h.w.chains["eth"] == nil {
+		h.rep.Count("replay:claim-amount:skipped-no-world")
+		return
+	}
+	contractAddr := h.w.chains["eth"].fxContract
 	ext := func(i int) string { return lib.ExternalAccount(h.seed, "eth", i) }
 	for _, variant := range []string{"negative", "absent", "valid"} {
 		m := &crosschaintypes.MsgBridgeCallClaim{ChainName: "eth", BridgerAddress: h.p.accOK[0], EventNonce: 1, BlockHeight: 10, Sender: ext(1), Refund: ext(1),
